@@ -211,29 +211,31 @@ func build(workDir string, race bool) string {
 // thousands of short-lived files of a batch), else the run's work directory.
 // It is removed together with the work directory when the check ends.
 var scratchOnce struct {
-	done bool
+	once sync.Once
 	dir  string
 }
 
+// scratchDir is called by the worker goroutines of runBase concurrently.
 func scratchDir(workDir string) string {
-	if scratchOnce.done {
-		return scratchOnce.dir
-	}
-	scratchOnce.done, scratchOnce.dir = true, workDir
-	if d, err := os.MkdirTemp("/dev/shm", "zsim-scratch-"); err == nil {
-		if f, err := os.CreateTemp(d, "probe"); err == nil {
-			f.Close()
-			os.Remove(f.Name())
-			scratchOnce.dir = d
-		} else {
-			os.Remove(d)
+	scratchOnce.once.Do(func() {
+		dir := workDir
+		if d, err := os.MkdirTemp("/dev/shm", "zsim-scratch-"); err == nil {
+			if f, err := os.CreateTemp(d, "probe"); err == nil {
+				f.Close()
+				os.Remove(f.Name())
+				dir = d
+			} else {
+				os.Remove(d)
+			}
 		}
-	}
+		scratchOnce.dir = dir
+	})
 	return scratchOnce.dir
 }
 
 func removeScratch() {
-	if scratchOnce.done && strings.HasPrefix(scratchOnce.dir, "/dev/shm/") {
+	scratchOnce.once.Do(func() {})
+	if strings.HasPrefix(scratchOnce.dir, "/dev/shm/") {
 		os.RemoveAll(scratchOnce.dir)
 	}
 }
